@@ -153,6 +153,38 @@ func (c *Ctx) gateScenario(f *Func, key string, leaf func(ast.Expr) tri, forbidd
 	}
 	sort.Slice(gs, func(i, j int) bool { return gs[i] < gs[j] })
 	c.Check(okStatus, key, f, nil, "%s: dispatch unreachable; reachable statuses %v (expected one of %v)", why, gs, wantStatus)
+	// … and the rejection is actually said: under the scenario no return is reachable without passing some statement that
+	// writes an HTTP status or a JSON-RPC error response (a silent return would answer 200 with an empty body)
+	wj := c.P.LookupFuncObj(pM, "", "writeJSONRPCError")
+	says := func(v int) bool {
+		n := g.Node(v)
+		if n == nil {
+			return false
+		}
+		if c.httpStatusIn(f, n) != 0 {
+			return true
+		}
+		for _, call := range f.AllCalls(n, false) {
+			if fn := f.Callee(call); fn != nil {
+				switch {
+				case wj != nil && f.IsCallTo(call, wj):
+					return true
+				case fn.Name() == "Error" && fn.Pkg() != nil && fn.Pkg().Path() == "net/http":
+					return true
+				case fn.Name() == "WriteHeader" || fn.Name() == "ServeHTTP" || strings.HasPrefix(fn.Name(), "write") || strings.HasPrefix(fn.Name(), "serve"):
+					return true // non-constant status / delegated response
+				}
+			}
+		}
+		return false
+	}
+	quiet := g.ReachUnder(leaf, says)
+	for _, x := range g.Exits {
+		if quiet[x] && !says(x) {
+			c.Fail(key+":silent-return", f, g.Node(x), "%s: this return is reachable without any status having been written", why)
+			return
+		}
+	}
 }
 
 func asExprStmt(n ast.Node) ast.Expr {
